@@ -14,7 +14,7 @@ PROPS="$@"
 [ -z "$PROPS" ] && PROPS="C01 C02 C03 C04 C05 C06 C07 C08 C09 C10 C11 C12 C13 C14 C15 C17 C18 C19 C20"
 cd /verif
 for p in $PROPS; do
-  out=$(VERIF_REPO=$W timeout 300 ./check $p 2>&1); rc=$?
+  out=$(VERIF_NOEVIDENCE=1 VERIF_REPO=$W timeout 300 ./check $p 2>&1); rc=$?
   if [ $rc -ne 0 ]; then echo "== $p exit $rc"; echo "$out" | grep -E "^(VIOLATION|ANALYSIS|   mosromgr)" | cut -c1-230 | head -8; fi
 done
 git -C /verif checkout -q -- evidence 2>/dev/null
